@@ -92,7 +92,7 @@ def replay(ctx, path):
     return 1
 
 
-def graph(ctx, quick):
+def graph(ctx, quick, focus_depth=6):
     """L2: programs assembled by ForwardGen.tla from a 10-rule table; expected outcomes computed by the interpreter in TLC."""
     c.tlc_l1(ctx, "ForwardGen.tla", "MC_ForwardGen.cfg", workers=4, timeout=900)
     for w in ("Reach_TwoPasses", "Reach_Err"):
@@ -101,7 +101,7 @@ def graph(ctx, quick):
     # a deep graph over three rules (plain, no-loop, lock-on-active in a group) with rules removed and re-added between executes
     c.graph_leg(ctx, "ForwardGen.tla", "forward", "Gen_ForwardGen_rm.cfg", cfg, 300 if quick else 5000, 10, 0)
     # lock-on-active bookkeeping is keyed by group NAME inside the engine: every sequence of focus / pop / execute to depth 8
-    c.graph_leg(ctx, "ForwardGen.tla", "forward", "Gen_ForwardGen_focus.cfg", cfg, 100, 10, 8)
+    c.graph_leg(ctx, "ForwardGen.tla", "forward", "Gen_ForwardGen_focus.cfg", cfg, 100, 10, focus_depth, histbudget=3000000)
     if quick:
         c.graph_leg(ctx, "ForwardGen.tla", "forward", "Gen_ForwardGen.cfg", cfg, 300, 7, 0, "Sim_ForwardGen.cfg", 300, 9)
     else:
